@@ -412,8 +412,36 @@ def r6_edit_effect(r, facts):
             allowed = [loc for loc, s_ in f.assigns() if s_['lhs']['l'] == 0 and s_['rv']['k'] == 'agg' and s_['rv'].get('variant') == 'Err']
         hit = f.forward_paths_hit(starts, f.returns(), blockers=good + allowed)
         r.require(hit is None, 'effect:%s/skipped' % meth, 'a path through ReadBuf::%s on which the buffer holds a slot returns normally without storing the new length (outside the exits its contract names): the edit silently does nothing' % meth, f.where(hit[0]) if hit else '')
+    # remove(range): the half-open window [start, end) the bounds stand for — Included(i) starts at i, Excluded(i) at i + 1,
+    # Unbounded at 0; Included(j) ends at j + 1, Excluded(j) at j, Unbounded at the current length
+    f = facts.fn_opt(RB + '::remove')
+    if f is not None:
+        eb = ExprBuilder(f, multi='leaf')
+        seen = 0
+        for which, call, plus_one, plain, unb in (('start', 'start_bound', '@Excluded', '@Included', lambda e: strip(e)[0] == 'const' and strip(e)[1] == 0),
+                                                   ('end', 'end_bound', '@Included', '@Excluded', cur_len)):
+            for l in range(len(f.locals)):
+                ds = [d for d in f.defs.get(l, []) if not f.blocks[d[0][0]]['cleanup']]
+                es = [eb.definition(d, 0, ()) for d in ds]
+                if len(es) < 2 or not all(any(x[0] == 'call' and x[1].endswith(call) for x in subexprs(e)) or unb(e) for e in es) or not any(call in str(e) for e in es):
+                    continue
+                for d, e in zip(ds, es):
+                    txt = str(e)
+                    adds = [x for x in subexprs(e) if (x[0] == 'bin' and x[1].startswith('Add')) or (x[0] == 'call' and x[1].endswith(('::add', 'wrapping_add', 'saturating_add', 'checked_add')) and len(x[2]) == 2)]
+                    k = None
+                    for a in adds:
+                        ops = (a[2], a[3]) if a[0] == 'bin' else a[2]
+                        cs = [strip(o) for o in ops if strip(o)[0] == 'const']
+                        k = cs[0][1] if cs else '?'
+                    if plus_one in txt:
+                        seen += 1
+                        r.inst('remove: %s of %s(i) = i + %s' % (which, plus_one[1:], k), f.where(d[0]))
+                        r.require(k == 1, 'effect:remove/%s-bound' % which, 'the %s of a range with an %s bound i is taken as i + %s, expected i + 1' % (which, plus_one[1:].lower(), k), f.where(d[0]))
+                    elif plain in txt:
+                        seen += 1
+                        r.require(not adds, 'effect:remove/%s-bound' % which, 'the %s of a range with an %s bound i is not i itself: %s' % (which, plain[1:].lower(), txt[:100]), f.where(d[0]))
+        r.require(seen >= 4, 'effect:remove/bounds', 'the translation of the range bounds into [start, end) was not found in remove (unrecognised form; %d of 4 cases seen)' % seen, f.where())
     r.floor(5)
-
 
 
 def check(ctx):
